@@ -28,7 +28,7 @@ func init() {
 	register(&Check{
 		ID: "C04", Level: "exploration", Configs: []string{"clean"},
 		Run:         runC04,
-		QuickRuns:   400_000,
+		QuickRuns:   1_500_000,
 		ThoroughSec: 600,
 		Rule: "one run = one sender marshalling 1-12 drawn well-formed packets (0-15 CSRC, none/one-byte/two-byte/legacy extensions, " +
 			"empty..large payload, RTP padding 0-255) with Packet.MarshalTo and Header.MarshalTo into buffers of a recycling pool " +
